@@ -21,7 +21,7 @@ RULE = ("one connection (plain or TLS) to a real http.Server with tymeout T in {
         "chunks of an unfinished request head, or completing a persistent (HTTP/1.1 keep-alive) request; pass times "
         "are concentrated within one unit of the window edge last_traffic+T; a case is non-trivial when T > 0 and "
         "some pass with traffic happens within one unit of the deadline of that moment (either side)")
-MODELLED = ["virtual tyme as integers (the harness only uses integer-valued float tymes, so float arithmetic is exact)",
+MODELLED = ["virtual tyme as integers (the harness uses tymes that are integer multiples of a unit of 1, 1/4, 1/32 or 8 s, so float arithmetic is exact; other fractional tymes are not exercised)",
             "HTTP request content beyond: number of received chunks per pass and whether a persistent request head "
             "completes in the pass",
             "sockets (fake socket module shared with C11)"]
@@ -51,6 +51,8 @@ def directed():
         {"tls": True, "T": 5, "t0": 0, "passes": [P(0, "idle"), P(5, "idle")]},
         {"tls": True, "T": 4, "t0": 0, "passes": [P(0, "idle"), P(3, "rx", 1), P(3, "rx", 1), P(3, "rx", 1), P(4, "idle")]},
         {"tls": True, "T": 4, "t0": 2, "passes": [P(0, "rx", 2), P(3, "req", 1), P(30, "idle")]},
+        # default Tymist tock (1/32 s) as the unit
+        {"tls": False, "T": 96, "t0": 5, "unit": 0.03125, "passes": [P(0, "idle"), P(95, "rx", 2), P(95, "idle"), P(1, "idle")]},
         # closed: later traffic is ignored
         {"tls": False, "T": 2, "t0": 0, "passes": [P(0, "idle"), P(2, "rx", 1), P(1, "rx", 1), P(1, "req", 1)]},
     ]
@@ -89,7 +91,7 @@ def generate(rng, tier):
             if a[0] != "idle":
                 last = now
             passes.append([dt, a])
-        out.append({"tls": tls, "T": T, "t0": t0, "passes": passes})
+        out.append({"tls": tls, "T": T, "t0": t0, "passes": passes, "unit": rng.choice([1.0, 1.0, 0.25, 0.03125, 8.0])})
     return out
 
 
@@ -133,10 +135,11 @@ def run_impl(case):
     from hio.core.http import serving as hserving
     from hio.base import tyming
     world = fk.World()
-    tymist = tyming.Tymist(tyme=float(case["t0"]), tock=1.0)
+    u = float(case.get("unit", 1.0))     # seconds per model tyme unit (a power of two: float arithmetic stays exact)
+    tymist = tyming.Tymist(tyme=float(case["t0"]) * u, tock=u)
     out = []
     with fk.patched(world):
-        kw = dict(port=world.port, host="127.0.0.1", tymeout=float(case["T"]), app=_app)
+        kw = dict(port=world.port, host="127.0.0.1", tymeout=float(case["T"]) * u, app=_app)
         if case["tls"]:
             kw.update(scheme="https", context=fk.FakeContext())
         srv = hserving.Server(**kw)
@@ -147,7 +150,7 @@ def run_impl(case):
         ca = fk.ca_of(CA)
         feeder, ix, core, persisted = Feeder(), None, None, False
         for dt, a in case["passes"]:
-            tymist.tyme = tymist.tyme + float(dt)
+            tymist.tyme = tymist.tyme + float(dt) * u
             chunks = []
             if a[0] == "rx":
                 chunks = [feeder.partial() for _ in range(a[1])]
@@ -169,8 +172,8 @@ def run_impl(case):
                 raise AssertionError("socket closed but connection still listed (or the reverse)")
             req = srv.reqs.get(ca)
             persisted = persisted or (bool(req.persisted) if req is not None else False)   # sticky
-            out.append({"closed": closed, "tmo": _as_int(ix.tymeout), "st": _as_int(ix.tymer._start),
-                        "sp": _as_int(ix.tymer._stop), "persisted": persisted, "now": _as_int(tymist.tyme)})
+            out.append({"closed": closed, "tmo": _as_int(ix.tymeout / u), "st": _as_int(ix.tymer._start / u),
+                        "sp": _as_int(ix.tymer._stop / u), "persisted": persisted, "now": _as_int(tymist.tyme / u)})
         srv.close()
         leaked = world.open_ids()
     return {"passes": out, "leaked": leaked}
